@@ -231,6 +231,23 @@ def check(run):
             return valid(cand) and oracle(["reset"] + cand, g) is not None
         small = shrink(prog, fails) if len(prog) < 400 else prog
         run.violation("oracle:" + why.split(" ")[0], why, {"kind": "stream", "ops": small, "why": why}, True)
+    elif err and "go harness exit" in err and len(gl) < len(ops) and any(b[0] <= len(gl) < b[1] for b in bounds):
+        # the process running the real OutputStream died inside the op after the last answered one (fatal error, stack
+        # exhaustion, deadlock detector): run that program alone; if it dies again it is the failing input
+        i = len(gl)
+        lo, hi = [b for b in bounds if b[0] <= i < b[1]][0]
+        prog = ops[lo:i + 1]
+        dd = vlib.workdir("c08c")
+        g2, _, _, err2 = vlib.differential(run, "crash", ["reset"] + prog, exe, "stream", env_extra={"VERIF_TMP": dd}, timeout=120)
+        shutil.rmtree(dd, ignore_errors=True)
+        again = bool(err2 and "go harness exit" in err2 and len(g2) < len(prog) + 1)
+        why = "the process died inside `%s` on the real OutputStream (%s)" % (ops[i][:60], ("fatal error: " + err.split("fatal error:")[1].split("\n")[0].strip()) if "fatal error:" in err else "no answer, exit != 0")
+        if again:
+            run.violation("oracle:crash", why, {"kind": "stream", "ops": prog, "why": why}, True)
+        else:
+            failed = [o[0] for o in run.failed_obligations()]
+            run.violation("broken:" + (failed[0] if failed else "?")[:40], "proof or correspondence no longer checks: %s" % failed,
+                          {"broken": failed, "first_diff_op": ops[i], "program": prog, "detail": [o[2][-1500:] for o in run.failed_obligations()]}, False)
     elif not st_ok:
         run.violation("stress:" + st_line.split(":")[0].replace("violation ", "")[:24], st_line, {"kind": "stress", "how": "TestVerifStreamStress with VERIF_SEED=%s" % run.seed, "observed": st_line}, True)
     elif not proved or not corr_ok:
